@@ -249,10 +249,15 @@ def instances(tier, seed):
         pats += ['KK', 'PUK', 'D', 'KKKK', 'KPUH', 'HUPK', 'PKPD', 'UUKD',
                  'HHKK']
     for p in pats:
+        # thorough: every supported version and full id ranges for
+        # histories of up to 2 packets; longer ones over the 12 boundary
+        # releases with 1-2 byte VarInt ids (5 length classes per VarInt id
+        # and version class otherwise: KKKK did not finish in 50 minutes)
+        full = tier == 'thorough' and len(p) <= 2
         out.append(Instance('play:%s' % p, 'play',
-                            {'pattern': p, 'lite': tier != 'thorough',
-                             'version': 'sym' if tier == 'thorough' or
-                             len(p) == 1 else 'boundary'}, W=96,
+                            {'pattern': p, 'lite': not full,
+                             'version': 'sym' if full or len(p) == 1
+                             else 'boundary'}, W=96,
                             budget_s=3000, witness_every=5,
                             max_decisions=200000))
     out.append(Instance('play:z:KPUKD', 'play',
